@@ -5,7 +5,7 @@ from . import common as C
 from . import gencrate as GC
 
 THEOREMS = ["C16_no_deadlock", "C16_mutual_exclusion", "C16_steps_decrease", "C16_termination", "C16_results_schedule_independent",
-            "C16_linearizable", "C16_per_thread_results", "C16_lock_order", "C16_source_lock_order"]
+            "C16_linearizable", "C16_per_thread_results", "C16_lock_order", "C16_source_lock_order", "C16_source_send_sync_bounds"]
 HEADER = ("From SF Require Import Bytes Locks HarnessC16.\nImport ListNotations.\nOpen Scope N_scope.\n")
 
 SCENARIOS = ["prims", "frame60", "frame61", "frame68", "nested_tuples", "rec_by_val", "rec_by_ref", "pod_by_ref", "strs", "slices", "res", "opt",
@@ -154,6 +154,12 @@ def run(chk, tier, seed):
                     chk.broken.append("lock events from an unknown thread in case %d" % k)
                 terms.append((k, "trace_conforms %d (mk_trace [%s])" % (len(progs), ";".join("(%d,%d,%d)" % e for e in ev))))
         chk.distinct.add(tuple(tuple(p) for p in progs))
+    # the compile-time contract: AbiConnection<dyn I> is Send exactly when I: Send and Sync exactly when I: Sync
+    bo = C.run_harness(binary, ["b abi_bounds"]).get("b", "MISSING")
+    chk.cov["send_sync_bounds"] = bo
+    if bo != "00 10 01 11":
+        chk.violations.append(("AbiConnection<dyn I> has the wrong Send/Sync bounds: observed (Send,Sync) = %s for I plain / I: Send / I: Sync / I: Send + Sync, expected 00 10 01 11 "
+                               "(a connection to an interface that is not Sync must not be shareable between threads)" % bo, {"harness_line": "b abi_bounds"}))
     # shared connection
     shared = []
     hung = sum(1 for r in results if r[1].startswith("HANG") or r[3].startswith("HANG")) >= 3
